@@ -73,6 +73,13 @@ def run(e: Engine, rep: Report):
              'no access to the private `_headers` list (positions computed '
              'by hand put a header above the trace block)')
     p11(e, rep)
+    rep.rule('P12', 'the recipients of a message are changed by policies '
+             '(and by the storage, for settled ones) only: Queue itself '
+             'neither assigns nor edits `.recipients` of an envelope it was '
+             'handed (its own copies are its own to fill) - what '
+             'the queue drops before the policy chain runs is stored for '
+             'nobody')
+    p12(e, rep)
     rep.rule('P7', 'policy objects do not share state: no class-level '
              'mutable object of a policy class is changed in place through '
              'self without __init__ giving each instance its own')
@@ -1317,3 +1324,54 @@ def p11(e: Engine, rep: Report):
     else:
         rep.ok('P11', 'slimta.policy', 'no access to Message internals',
                reason='%d functions scanned' % n, nontrivial=False)
+
+
+# --------------------------------------------------------------------- P12
+def p12(e: Engine, rep: Report):
+    c = common.merged_class(e, QUEUE)
+    n = 0
+    bad = 0
+    muts = {'append', 'extend', 'insert', 'remove', 'pop', 'clear', 'sort',
+            'reverse', '__setitem__', '__delitem__'}
+    for mname, m in sorted(c.methods.items()):
+        n += 1
+        for x in walk_own(m.node):
+            hit = None
+            if isinstance(x, ast.Attribute) and x.attr == 'recipients' and \
+                    isinstance(x.ctx, (ast.Store, ast.Del)):
+                hit = x
+            elif isinstance(x, ast.Subscript) and \
+                    isinstance(x.ctx, (ast.Store, ast.Del)) and \
+                    isinstance(x.value, ast.Attribute) and \
+                    x.value.attr == 'recipients':
+                hit = x
+            elif isinstance(x, ast.Call) and \
+                    isinstance(x.func, ast.Attribute) and \
+                    x.func.attr in muts and \
+                    isinstance(x.func.value, ast.Attribute) and \
+                    x.func.value.attr == 'recipients':
+                hit = x
+            if hit is None:
+                continue
+            # (a copy the method made itself - the per-reply groups of a
+            # bounce - is its own to fill)
+            base = hit
+            while isinstance(base, (ast.Attribute, ast.Subscript, ast.Call)):
+                base = base.func if isinstance(base, ast.Call) else base.value
+            if not (isinstance(base, ast.Name) and base.id in m.params):
+                continue
+            bad += 1
+            rep.evaluations += 1
+            rep.functions.add(m.qname)
+            rep.bad('P12', m.qname, '`%s`' % ' '.join(
+                ast.unparse(hit).split())[:50],
+                'Queue.%s changes the recipient list of an envelope itself: '
+                'recipients it takes out are in no envelope that gets '
+                'stored (nobody is told), whatever the policy chain is'
+                % mname, loc=m.loc(hit))
+    rep.evaluations += 1
+    if n < 10:
+        rep.error('anchor vanished: methods of Queue (%d < 10)' % n)
+    elif not bad:
+        rep.ok('P12', QUEUE, 'Queue never writes `.recipients`',
+               reason='%d methods scanned' % n, nontrivial=False)
